@@ -22,7 +22,7 @@ def benign_pick(kernel, acts):
     for i, a in enumerate(acts):
         if a.kind == "feeder":
             key = (0, a.label)
-        elif a.kind == "fault" or a.kind == "signal":
+        elif a.kind == "fault" or a.kind == "signal" or a.kind == "sighandler":
             key = (1, a.label)
         elif a.kind == "task":
             key = (2, a.target.index) if a.target.role == "W" else (3, 0)
